@@ -359,9 +359,11 @@ VEX_REG_CLASSES = {"rvm": (0x72, 0x75), "rm": (0x68, 0x6B), "rvmi": (0x7A, 0x7C)
                    # legacy space: ExtRm, ExtRm_P, X86Rm, X86Rm_NoSize ([reg, rm]); X86Mr, X86Mr_NoSize ([rm, reg]); ExtRmi, ExtRmi_P ([reg, rm, imm8])
                    "lrm": (0x4A, 0x4D, 0x14, 0x16, 0x21), "lmr": (0x17, 0x18), "lrmi": (0x52, 0x53), "lop": (0x01,),
                    # X86Arith, X86Test, register-register: the class emits the [rm, reg] form; 8-bit operands in both kinds (gpb, gpbhi)
-                   "larith": (0x19, 0x3D)}
+                   "larith": (0x19, 0x3D),
+                   # X86Rot: shift / rotate a register by an imm8 ([rm, imm8] with an opcode-extension digit), all operand sizes
+                   "lrot": (0x37,)}
 SHAPE_ROLES = {"rvm": ["reg", "vvvv", "rm"], "rm": ["reg", "rm"], "rvmi": ["reg", "vvvv", "rm", "imm"], "rmi": ["reg", "rm", "imm"],
-               "lrm": ["reg", "rm"], "lmr": ["rm", "reg"], "lrmi": ["reg", "rm", "imm"], "lop": None, "larith": ["rm", "reg"]}
+               "lrm": ["reg", "rm"], "lmr": ["rm", "reg"], "lrmi": ["reg", "rm", "imm"], "lop": None, "larith": ["rm", "reg"], "lrot": ["rm", "imm"]}
 
 
 def class_rows_lean(kept, rows, chunk=96):
@@ -397,7 +399,7 @@ def class_rows_lean(kept, rows, chunk=96):
                     if o["imm"] != 8:
                         okf = False
                     continue
-                if o["reg"] not in CLASS or (len(CLASS[o["reg"]]) != 1 and shape != "larith") or o["implicit"]:
+                if o["reg"] not in CLASS or (len(CLASS[o["reg"]]) != 1 and shape not in ("larith", "lrot")) or o["implicit"]:
                     okf = False
                     break
                 kinds.append(CLASS[o["reg"]])
